@@ -1361,6 +1361,12 @@ class Engine:
     def e_BoolOp(self, node, st):
         is_and = isinstance(node.op, ast.And)
         spec_mode = st.env.get("__spec__")
+        if spec_mode:
+            # contract expressions: and/or are used in boolean position only
+            outs = self.eval_seq(node.values, st)
+            if len(outs) == 1 and outs[0][2] is None:
+                ts = [self.truthy(outs[0][0], v) for v in outs[0][1]]
+                return [(outs[0][0], z3_and(*ts) if is_and else z3_or(*ts), None)]
 
         def go(s, idx):
             res = []
@@ -1374,7 +1380,10 @@ class Engine:
                 t = self.truthy(s1, v)
                 if spec_mode or (self._pure_syntax(node.values[idx + 1 :]) and self._boolish(v)):
                     # pure rest: build a formula instead of forking
-                    rest = go(s1.copy(), idx + 1)
+                    try:
+                        rest = go(s1.copy(), idx + 1)
+                    except Unsupported:
+                        rest = []
                     if len(rest) == 1 and rest[0][2] is None and self._boolish(rest[0][1]):
                         r = rest[0][1]
                         res.append((rest[0][0], z3_and(t, self.truthy(s1, r)) if is_and else z3_or(t, self.truthy(s1, r)), None))
@@ -1586,6 +1595,8 @@ class Engine:
             return [(st, BoundV(o, attr, src), None)]
         if isinstance(o, ExcV):
             return [(st, self.fresh(f"exc.{attr}", U), None)]
+        if o is None:
+            return [(st, None, ExcV("AttributeError"))]
         raise Unsupported(f"attribute {attr} of {type(o).__name__}")
 
     def e_Subscript(self, node, st):
